@@ -12,6 +12,15 @@ From ChiaV.Gen Require Import Precomputed.
 From ChiaV.Thash Require Import Heap Mirror DeBr HeapProofs PrecomputedProofs TreeHashProofs CacheProofs.
 Open Scope N_scope.
 
+(* the runner-friendly atom parser is Clvm/Sexp.parse_atom *)
+Lemma parse_atom_n_eq b rest : parse_atom_n b rest = parse_atom b rest.
+Proof.
+  unfold parse_atom_n, parse_atom. destruct (b2n b <? 128); [reflexivity|].
+  destruct (decode_size (b2n b) rest) as [[size rest']|]; [|reflexivity].
+  destruct (N.ltb_spec (N.of_nat (length rest')) size), (Nat.ltb_spec (length rest') (N.to_nat size));
+    try reflexivity; lia.
+Qed.
+
 (* ---------- views of a node through its denotation ---------- *)
 Lemma den_pair_none h i : nth_error (h_pairs h) i = None -> den h (NPair i) = nil.
 Proof.
@@ -502,14 +511,14 @@ Lemma parse_atom_bytes_shorter b rest a rest' : parse_atom_bytes b rest = Some (
 Proof.
   unfold parse_atom_bytes. destruct (byte_eqb b x80).
   - intros Q; inversion Q; subst. lia.
-  - apply parse_atom_shorter.
+  - rewrite parse_atom_n_eq. apply parse_atom_shorter.
 Qed.
 
 Lemma parse_path_shorter bs path rest' : parse_path bs = Some (path, rest') ->
   (length rest' < length bs)%nat.
 Proof.
   destruct bs as [|pb rest]; [discriminate|]. cbn [parse_path length].
-  intros Q. apply parse_atom_shorter in Q. lia.
+  rewrite parse_atom_n_eq. intros Q. apply parse_atom_shorter in Q. lia.
 Qed.
 
 Definition n_cons (ops : list parseop) : nat :=
@@ -581,7 +590,7 @@ Proof.
       destruct (byte_eqb_spec b xfe) as [->|_]; [rewrite parse_atom_fe in P; discriminate|].
       unfold parse_atom_bytes.
       destruct (byte_eqb_spec b x80) as [->|_]; [congruence|].
-      rewrite P. reflexivity.
+      rewrite parse_atom_n_eq, P. reflexivity.
 Qed.
 
 Theorem deser_br_plain bs t rest : deser bs = Some (t, rest) -> deser_br bs = DOk t.
